@@ -166,6 +166,51 @@ def _cli(cmd, smt2, timeout_s):
             pass
 
 
+def uses_strings(formulas) -> bool:
+    todo, seen = list(formulas), set()
+    while todo:
+        e = todo.pop()
+        i = e.get_id()
+        if i in seen:
+            continue
+        seen.add(i)
+        if z3.is_app(e) and e.decl().kind() in (z3.Z3_OP_SEQ_CONCAT, z3.Z3_OP_SEQ_CONTAINS, z3.Z3_OP_SEQ_PREFIX,
+                                                 z3.Z3_OP_SEQ_SUFFIX, z3.Z3_OP_SEQ_LENGTH, z3.Z3_OP_SEQ_INDEX,
+                                                 z3.Z3_OP_SEQ_EXTRACT, z3.Z3_OP_SEQ_REPLACE, z3.Z3_OP_SEQ_IN_RE):
+            return True
+        if len(seen) > 30000:
+            return False
+        todo.extend(e.children())
+    return False
+
+
+def preprocess_smt2(assertions) -> str:
+    s = z3.Solver()
+    try:
+        g = z3.Goal()
+        for a in assertions:
+            g.add(a)
+        pre = z3.Then(z3.Tactic("simplify"), z3.Tactic("propagate-values"), z3.Tactic("solve-eqs"), z3.Tactic("simplify"))
+        sub = pre(g)
+        if len(sub) == 1:
+            for a in sub[0]:
+                s.add(a)
+        else:
+            for a in assertions:
+                s.add(a)
+    except z3.Z3Exception:
+        s = z3.Solver()
+        for a in assertions:
+            s.add(a)
+    return "(set-logic ALL)\n" + s.to_smt2()
+
+
+def solve_cvc5(assertions, timeout_ms) -> SolveResult:
+    t0 = time.time()
+    st, sec = _cli(["/usr/bin/cvc5", "--strings-exp", f"--tlimit={timeout_ms}"], preprocess_smt2(assertions), timeout_ms / 1000)
+    return SolveResult(st, "cvc5-1.0.3(cli)", time.time() - t0)
+
+
 def solve_fallback(assertions, timeout_ms=None, want_model=True) -> SolveResult:
     """Fresh-solver cascade: z3 5.x (API) -> cvc5 (CLI) -> z3 4.8 (CLI). `unknown` only if all three give up."""
     timeout_ms = timeout_ms or QUICK_TIMEOUT_MS
@@ -180,6 +225,20 @@ def solve_fallback(assertions, timeout_ms=None, want_model=True) -> SolveResult:
     if r == z3.sat:
         return SolveResult("sat", "z3-5.1(api,fresh)", time.time() - t0, s.model() if want_model else None)
     reason = s.reason_unknown()
+    # the CLI back ends get the VC after z3's preprocessing (select-over-store, value propagation, equation solving):
+    # the heap/datatype wrapping then mostly disappears and the string/arith core is what cvc5 sees
+    try:
+        g = z3.Goal()
+        for a in assertions:
+            g.add(a)
+        pre = z3.Then(z3.Tactic("simplify"), z3.Tactic("propagate-values"), z3.Tactic("solve-eqs"), z3.Tactic("simplify"))
+        sub = pre(g)
+        if len(sub) == 1:
+            s = z3.Solver()
+            for a in sub[0]:
+                s.add(a)
+    except z3.Z3Exception:
+        pass
     smt2 = "(set-logic ALL)\n" + s.to_smt2()
     st, sec = _cli(["/usr/bin/cvc5", "--strings-exp", f"--tlimit={timeout_ms}"], smt2, timeout_ms / 1000)
     if st in ("sat", "unsat"):
@@ -188,3 +247,80 @@ def solve_fallback(assertions, timeout_ms=None, want_model=True) -> SolveResult:
     if st in ("sat", "unsat"):
         return SolveResult(st, "z3-4.8.12(cli)", time.time() - t0, None, reason)
     return SolveResult("unknown", "all", time.time() - t0, None, reason)
+
+
+# ------------------------------------------------------------------------ finite instantiation (model search)
+def _ground_index_terms(formulas, limit=14):
+    """ground terms used as indices of `select`, by sort name"""
+    out = {}
+    seen = set()
+    todo = list(formulas)
+    while todo:
+        e = todo.pop()
+        i = e.get_id()
+        if i in seen:
+            continue
+        seen.add(i)
+        if z3.is_quantifier(e):
+            continue          # terms under binders may mention bound variables
+        if z3.is_app(e):
+            if e.decl().kind() == z3.Z3_OP_SELECT and e.num_args() == 2:
+                idx = e.arg(1)
+                out.setdefault(idx.sort().name(), {})[idx.get_id()] = idx
+            todo.extend(e.children())
+    return {k: list(v.values())[:limit] for k, v in out.items()}
+
+
+def _instantiate(f, pools, depth=0):
+    """replace positive universal quantifiers by finite conjunctions over `pools` (sort name -> terms)"""
+    if z3.is_quantifier(f) and f.is_forall():
+        nv = f.num_vars()
+        sorts = [f.var_sort(i) for i in range(nv)]
+        cands = []
+        for s in sorts:
+            pool = list(pools.get(s.name(), []))
+            if s.name() == "Int":
+                pool = pool + [z3.IntVal(k) for k in range(0, 3)]
+            if not pool:
+                return f
+            cands.append(pool)
+        total = 1
+        for c in cands:
+            total *= len(c)
+        if total > 400:
+            cands = [c[:max(2, int(400 ** (1.0 / nv)))] for c in cands]
+        body = f.body()
+        insts = []
+        import itertools
+        for combo in itertools.product(*cands):
+            # de Bruijn: variable 0 is the LAST bound variable
+            inst = z3.substitute_vars(body, *reversed(combo))
+            insts.append(_instantiate(inst, pools, depth + 1) if depth < 2 else inst)
+        return z3.And(insts) if insts else z3.BoolVal(True)
+    if z3.is_app(f):
+        k = f.decl().kind()
+        if k == z3.Z3_OP_AND:
+            return z3.And([_instantiate(c, pools, depth) for c in f.children()])
+        if k == z3.Z3_OP_IMPLIES:
+            return z3.Implies(f.arg(0), _instantiate(f.arg(1), pools, depth))
+        if k == z3.Z3_OP_OR:
+            return z3.Or([_instantiate(c, pools, depth) for c in f.children()])
+    return f
+
+
+def candidate_model(pc, neg_goal, timeout_ms=5000):
+    """Counter-model CANDIDATE: universally quantified assumptions are replaced by their instances over the ground index
+    terms of the query (plus 0,1,2). Only ever used as an input for native replay."""
+    try:
+        pools = _ground_index_terms(list(pc) + [neg_goal])
+        s = z3.Solver()
+        s.set("timeout", timeout_ms)
+        for a in pc:
+            s.add(_instantiate(a, pools))
+        s.add(neg_goal)
+        r = s.check()
+        if r == z3.sat:
+            return "sat", s.model()
+        return str(r), None
+    except z3.Z3Exception as e:
+        return "error:" + str(e)[:100], None
